@@ -2,10 +2,10 @@ CONSTANTS
   KINDS = {"cbc", "pcbc", "ige"}
   DIRS = {"enc", "dec"}
   BS = 2
-  W = 3
-  MAXU = 4
+  W = 2
+  MAXU = 3
   OBJS = {"a", "s"}
   PROP = "C02"
 SPECIFICATION Spec
-INVARIANTS C02 C07 NoJunk EmitReplay
+INVARIANTS C02 C07 C09 NoJunk EmitReplay
 CHECK_DEADLOCK FALSE
